@@ -68,6 +68,11 @@ CLAIMED = {
    note="Trusted: Go type checker, go/ssa, frozen tables in checker/c14.go. Not covered: the tombstone arithmetic of TruncateUptoTx.",
    technique="lock-pairing dataflow, who-may-call, guard dominance and must-pass-through on the SSA CFG",
    ref="DESIGN.md §3 C14"),
+ "C15": dict(
+   text="Static decision of structural agreement clauses of the codecs: sibling encoders/decoders perform the same sequence of fixed-width field operations; SQL key and value codecs handle the same type sets on both sides; length limits are compared with the same operator when writing and reading; Timestamp values are normalised to microseconds wherever they enter the engine; metadata proto conversions carry every attribute.",
+   note="Trusted: Go type checker, go/ssa, go/ast, tables in checker/c15.go; codecs are in straight-line cursor style. Not covered: round-trip equality and order preservation for all values.",
+   technique="layout trace comparison of sibling functions, AST switch-case and constant-comparison agreement, constructor normalisation (value provenance)",
+   ref="DESIGN.md §3 C15"),
  "C16": dict(
    text="Static decision, for a frozen list of decoders of untrusted or possibly corrupted bytes, that every slice expression, index, fixed-size big-endian read and length-driven allocation is within bounds on all paths: each obligation (a linear inequality over SSA values and slice lengths) is discharged from dominating branch conditions, inferred callee summaries, stated interface contracts (checked on every implementation) and an induction step over loop cursors; explicit panics reachable from the decoders are violations; header decoders accept only known versions.",
    note="Trusted: Go type checker, go/ssa, the linear-arithmetic prover in checker/bounds.go (sound by construction: an obligation is accepted only if it is a non-negative combination of facts), the decoder list and the four stated preconditions/non-negativity assumptions in checker/c16.go. Not covered: termination/time bounds, overflow of cursor arithmetic, the generated SQL parser.",
@@ -85,6 +90,8 @@ CLAIMED = {
    ref="DESIGN.md §3 C03"),
 }
 NA = {
+ "C11": "relation between the results of two executions (plan independence) for all data and queries: value-level; no structural clause was found that is both necessary and checkable without fixing the implementation (the store mechanism it relies on is checked under C04)",
+ "C19": "faithful storage and index-independent search of documents are value-level relations over documents and queries; the parts with checkable shape are decided under C01 (document proofs), C18 (gating of document RPCs), C07 (replica gating), C12/C13 (the underlying SQL table)",
 }
 PENDING = "check not built yet in this round (see DESIGN.md §3 for the planned static clauses)"
 
